@@ -683,6 +683,48 @@ func Split(j *job.Job, s *job.Sink) {
 		r := prng.For(j.Seed, "C13", "split", c)
 		g := &schema.Gen{R: r, NoSubs: true, Typedefs: true}
 		g.Build()
+		// every module also gets a few identities, derived from earlier ones of the same
+		// module (with or without its own prefix) and from those of the modules it imports
+		nid := make([]int, len(g.Mods))
+		idx := map[*schema.Mod]int{}
+		for mi, m := range g.Mods {
+			nid[mi] = 2 + r.Intn(4)
+			idx[m] = mi
+		}
+		for mi, m := range g.Mods {
+			for q := 0; q < nid[mi]; q++ {
+				id := &schema.Ident{Name: fmt.Sprintf("zi%dx%d", mi, q)}
+				for nb := r.Intn(3); nb > 0; nb-- {
+					if q > 0 && r.Intn(2) == 0 {
+						b := fmt.Sprintf("zi%dx%d", mi, r.Intn(q))
+						if r.Intn(2) == 0 {
+							b = m.Prefix + ":" + b
+						}
+						id.Bases = append(id.Bases, b)
+					} else if len(m.Imports) > 0 {
+						im := m.Imports[r.Intn(len(m.Imports))]
+						if oi, ok := idx[im.Mod]; ok && oi < mi {
+							id.Bases = append(id.Bases, fmt.Sprintf("%s:zi%dx%d", im.Prefix, oi, r.Intn(nid[oi])))
+						}
+					}
+				}
+				// (no base twice: not what this family is about)
+				seenB := map[string]bool{}
+				var bs []string
+				for _, b := range id.Bases {
+					k := b
+					if i := strings.Index(b, ":"); i >= 0 && b[:i] == m.Prefix {
+						k = b[i+1:]
+					}
+					if !seenB[k] {
+						seenB[k] = true
+						bs = append(bs, b)
+					}
+				}
+				id.Bases = bs
+				m.Idents = append(m.Idents, id)
+			}
+		}
 		var unsplit []map[string]string
 		for _, m := range g.Mods {
 			unsplit = append(unsplit, map[string]string{"name": m.Name + ".yang", "text": schema.Print(m)})
